@@ -7,6 +7,7 @@ import (
 	"strconv"
 	"strings"
 
+	"github.com/iancoleman/strcase"
 	"github.com/pentops/j5/internal/verifh/vh"
 )
 
@@ -31,7 +32,7 @@ type Schema struct {
 
 type Prop struct {
 	Name  string
-	Flags string // r required, o optional, f filterable, s sortable, q searchable, p primary key, d / D default filter (a declared option / not an option)
+	Flags string // r required, o optional, f filterable, s sortable, q searchable, p primary key, d / P / D default filter (a declared option / the same with the enum's prefix / not an option)
 	T     *Type
 }
 
@@ -371,13 +372,25 @@ func (s *Spec) enumOptions(t *Type) []string {
 	return nil
 }
 
-// defaultFilter: the default filter value the flags 'd' (a declared option) / 'D' (no option of the
-// enum) put on an enum property; "" when there is none
+// enumPrefix: the value-name prefix of the enum a property's type refers to: SCREAMING_SNAKE of the
+// enum's name (an inline enum is hoisted under the camel-cased field name)
+func enumPrefix(p *Prop) string {
+	if p.T.K == "IE" {
+		return strcase.ToScreamingSnake(strcase.ToCamel(p.Name)) + "_"
+	}
+	return strcase.ToScreamingSnake(p.T.Name) + "_"
+}
+
+// defaultFilter: the default filter value the flags 'd' (a declared option), 'P' (the same option
+// spelled with the enum's prefix) / 'D' (no option of the enum) put on an enum property; "" when
+// there is none
 func (s *Spec) defaultFilter(p *Prop) string {
 	opts := s.enumOptions(p.T)
 	switch {
 	case p.Has('D'):
 		return "BOGUS"
+	case p.Has('P') && len(opts) > 0:
+		return enumPrefix(p) + opts[0]
 	case p.Has('d') && len(opts) > 0:
 		return opts[0]
 	}
